@@ -294,8 +294,11 @@ CHECK = {
                 "contain their points (C13); casts that specify their end point do not read state left by earlier casts; the abstract "
                 "merge lemma explains why the budget rule is neutral in exact arithmetic; every visited cell is met by the segment "
                 "(ghost-parameter invariant: the ray point at the entry parameter lies in the closed current cell); assembled end to "
-                "end for the state cast(origin, end) builds on a 2D and a 3D grid, for every origin != end inside the extent, under "
-                "the single hypothesis that the crossing parameters do not overflow. Model tied to RayCasting<float|double,2|3> by "
+                "end for the state cast(origin, end) builds on a 2D and a 3D grid, for every origin != end inside the extent; the "
+                "older no-overflow hypothesis on the stored crossing parameters is removed (walk and geometry proved together: the "
+                "parameters next() compares are <= |e-o|), leaving |e-o| < max(), which holds for every extent of side <= 2000 (the "
+                "envelope): no numeric premise left there; integer side: with sum of cells per axis <= 2^31-1 every visited index is "
+                "in [0, n_i) and the int cell count and its partial sums fit. Model tied to RayCasting<float|double,2|3> by "
                 "executing the extracted model on the same rays (exact path equality outside near-ties).",
         "note": "Trusted: Coq kernel, stdlib real axioms; hand model tied by differential run; extraction; float dictionaries; harness; oracle.",
         "technique": "Coq proof (merge of per-axis crossing sequences; invariants over cast sequences) + extracted-model correspondence",
